@@ -388,7 +388,7 @@ func (u *Unit) execBody(fr *Frame, st0 *State) []retPoint {
 		if fr.con != nil && li == nil {
 			var ats []*Clause
 			for _, cl := range fr.con.clauses {
-				if cl.kind == "at" && cl.at == b.Comment {
+				if cl.kind == "at" && cl.at == b.Comment && cl.at != "return" {
 					ats = append(ats, cl)
 				}
 			}
